@@ -1078,6 +1078,13 @@ class Exec:
         if isinstance(l, VStr) and isinstance(r, VStr) and isinstance(op, ast.Add) and l.s is not None and r.s is not None \
                 and isinstance(l.s, str) and isinstance(r.s, str):
             return [(st, VStr(s=l.s + r.s))]
+        if isinstance(l, VStr) and isinstance(r, VStr) and isinstance(op, ast.Add) and not l.cp and not r.cp \
+                and all(x.z is not None or (isinstance(x.s, str) and x.s != '<fmt>') for x in (l, r)):
+            # text put together from literal and symbolic pieces: the pieces are remembered, because str.format() treats them differently
+            pieces = lambda x: list(getattr(x, 'tmpl', None) or [('lit', x.s) if x.z is None else ('sym', x.z)])
+            out = VStr(z=z3.Concat(self.strseq(l), self.strseq(r)))
+            out.tmpl = pieces(l) + pieces(r)
+            return [(st, out)]
         if isinstance(l, VStr) and isinstance(r, VStr) and isinstance(op, ast.Add) and isinstance(l.s, str):
             return [(st, VStr(prefix=l.s))]
         if isinstance(l, VObj):
@@ -2452,6 +2459,33 @@ class Exec:
                         okfmt = False
                         break
                     parts.append(self.strseq(kws[field]))
+            if okfmt:
+                z = z3.Empty(BYTES) if not parts else parts[0] if len(parts) == 1 else z3.Concat(*parts)
+                return [(st, VStr(z=z))]
+        if isinstance(b, VStr) and name == 'format' and getattr(b, 'tmpl', None) and not A and \
+                all(isinstance(v, VStr) and (v.z is not None or isinstance(v.s, str)) and v.s != '<fmt>' for v in kws.values()):
+            # a template put together from pieces: the literal pieces are formatted as Python does; a symbolic piece is TEXT THAT IS
+            # INTERPRETED AS A FORMAT STRING - whatever that yields (STR_FORMAT_OF_TEXT, uninterpreted: not the text itself in general)
+            import string
+            FMT = z3.Function('STR_FORMAT_OF_TEXT[%s]' % ','.join(sorted(kws)), BYTES, BYTES)
+            parts, okfmt = [], True
+            for kind, piece in b.tmpl:
+                if kind == 'sym':
+                    parts.append(FMT(piece))
+                    continue
+                try:
+                    parsed = list(string.Formatter().parse(piece))
+                except ValueError:
+                    okfmt = False
+                    break
+                for lit, field, spec, conv in parsed:
+                    if lit:
+                        parts.append(self.strseq(VStr(s=lit)))
+                    if field is not None:
+                        if field not in kws or spec not in ('', 's') or conv:
+                            okfmt = False
+                            break
+                        parts.append(self.strseq(kws[field]))
             if okfmt:
                 z = z3.Empty(BYTES) if not parts else parts[0] if len(parts) == 1 else z3.Concat(*parts)
                 return [(st, VStr(z=z))]
